@@ -597,6 +597,9 @@ class Stage:
                     value = value.reshape((1, value.shape[0]))
                 if isinstance(value, DM) and value.shape[0]==1 and value.shape[1]>1:
                     value = value.T
+            if isinstance(value, DM):
+                # structural zeros are numbers too: a sparse guess would be assigned entry by nonzero entry
+                value = ca.densify(value)
             self._initial[var] = value
             if priority:
                 self._initial.move_to_end(var, last=False)
